@@ -27,7 +27,8 @@ ASSUMPTIONS = ["indexmap::IndexSet::insert_full returns the existing index for a
 TRUSTED = ["indexmap::IndexSet", "baa::ValueInterner", "rustc privacy and type checking"]
 LEVEL_TEXT = ("Static ownership/effect analysis (who may mutate, construct or call what) over all crates of the workspace: for every finite or infinite sequence of construction calls the tables can only grow "
               "and lookups are structural, which is exactly the canonical-and-stable claim modulo the trusted collections. This is the strongest case for static analysis in this repository: the argument is about all histories, "
-              "which no test sequence can enumerate.")
+              "which no test sequence can enumerate."
+              " The builder contract T2 (the node interned is the one asked for, operands and widths in their own fields, trivial cases normalised away; symbol builders included) is part of this check: equal requests must intern equal nodes.")
 LEVEL_NOTE = "Trusted base: indexmap::IndexSet and baa::ValueInterner behave as documented; index wrap-around beyond 2^32-1 entries is excluded."
 TECHNIQUE = "who-may-access / who-may-call allow-list analysis, derive-provenance check, key-completeness (dependency subset) rule for secondary tables, compile-fail privacy witnesses (thorough)"
 
